@@ -46,59 +46,61 @@ Print Assumptions C18_only_registered_beneficiaries.
 (* over every history of messages, passed proposals, end blocks and plain transfers: whenever the
    module account ends up with less of a token than it started with, the history contains an accepted
    claim or passed distribution / withdraw proposal *)
-Theorem C18_pool_funds_leave_only_by_claim_or_passed_proposal : forall dynguard actors U h s d,
+Theorem C18_pool_funds_leave_only_by_claim_or_passed_proposal : forall dynguard payout_safe quorum_checked actors U h s d,
   Forall (fun e => op_wf (snd e)) h ->
-  s_bank (sp_run dynguard actors U s h) MODULE d < s_bank s MODULE d ->
-  exists e, In e h /\ is_payout (snd e) = true /\ exists s0, is_ok (sp_apply dynguard actors U (fst e) (snd e) s0) = true.
+  s_bank (sp_run dynguard payout_safe quorum_checked actors U s h) MODULE d < s_bank s MODULE d ->
+  exists e, In e h /\ is_payout (snd e) = true /\ exists s0, is_ok (sp_apply dynguard payout_safe quorum_checked actors U (fst e) (snd e) s0) = true.
 Proof. exact pool_funds_leave_only_by_claim_or_passed_proposal. Qed.
 Print Assumptions C18_pool_funds_leave_only_by_claim_or_passed_proposal.
 
-Theorem C18_one_step_outflow_needs_payout_op : forall dynguard actors U now o s s' d, sp_apply dynguard actors U now o s = Ok s' -> op_wf o ->
+Theorem C18_one_step_outflow_needs_payout_op : forall dynguard payout_safe quorum_checked actors U now o s s' d, sp_apply dynguard payout_safe quorum_checked actors U now o s = Ok s' -> op_wf o ->
   s_bank s' MODULE d < s_bank s MODULE d -> is_payout o = true.
 Proof. exact module_outflow_needs_payout_op. Qed.
 Print Assumptions C18_one_step_outflow_needs_payout_op.
 
 (* over every history the pools' recorded balances never exceed what the module account holds *)
-Theorem C18_books_le_module_balance : forall dynguard actors U h s,
-  Forall (fun e => op_wf (snd e)) h -> books_inv s -> books_inv (sp_run dynguard actors U s h).
+Theorem C18_books_le_module_balance : forall dynguard payout_safe quorum_checked actors U h s,
+  Forall (fun e => op_wf (snd e)) h -> books_inv s -> books_inv (sp_run dynguard payout_safe quorum_checked actors U s h).
 Proof. exact books_le_module. Qed.
 Print Assumptions C18_books_le_module_balance.
 
 (* ---------------------------------------------------------------- ubi *)
 (* every distribution passed the period gate, pays the record's amount and stamps the record *)
-Theorem C18_ubi_paid_only_when_due : forall gate now s s' paid id x,
-  NoDup (map fst (us_recs s)) -> ubi_endblock gate now s = Ok (s', paid) -> In (id, x) paid ->
-  exists r, In (id, r) (us_recs s) /\ ubi_due gate now r = true /\ 0 <= x /\ (u_dyn r = false -> x = ubi_amount r)
+Theorem C18_ubi_paid_only_when_due : forall gate big now s s' paid id x,
+  NoDup (map fst (us_recs s)) -> ubi_endblock gate big now s = Ok (s', paid) -> In (id, x) paid ->
+  exists r, In (id, r) (us_recs s) /\ ubi_due gate now r = true /\ 0 <= x /\ (u_dyn r = false -> x = ubi_amount big r)
             /\ uget id (us_recs s') = Some (touch now r) /\ NoDup (map fst (us_recs s')).
 Proof. exact ubi_paid_only_when_due. Qed.
 Print Assumptions C18_ubi_paid_only_when_due.
 
-(* at most once per period -- on the unrepaired gate (probe: gate_exact = false) the FULL statement is
+(* at most once per period -- on the earlier gate `now > last+period` (gate_exact = false; kept because
+   the model carries both shapes) the FULL statement is
    refuted by uint64 wrap-around (Period = 2^64-1) ... *)
 Theorem C18_ubi_once_per_period_refuted :
   exists t1 t2 s s1 s2 p1 p2 id x1 x2 r,
     NoDup (map fst (us_recs s)) /\
-    ubi_endblock false t1 s = Ok (s1, p1) /\ In (id, x1) p1 /\
-    ubi_endblock false t2 s1 = Ok (s2, p2) /\ In (id, x2) p2 /\
+    ubi_endblock false false t1 s = Ok (s1, p1) /\ In (id, x1) p1 /\
+    ubi_endblock false false t2 s1 = Ok (s2, p2) /\ In (id, x2) p2 /\
     In (id, r) (us_recs s) /\ 0 <= t1 /\ 0 <= u_period r /\ ~ (t1 + u_period r < t2).
 Proof. exact ubi_once_per_period_refuted. Qed.
 Print Assumptions C18_ubi_once_per_period_refuted.
 
 (* ... and true whenever last+period stays below 2^64 *)
-Theorem C18_ubi_once_per_period_guarded : forall t1 t2 s s1 s2 p1 p2 id x1 x2,
+Theorem C18_ubi_once_per_period_guarded : forall big t1 t2 s s1 s2 p1 p2 id x1 x2,
   NoDup (map fst (us_recs s)) ->
-  ubi_endblock false t1 s = Ok (s1, p1) -> In (id, x1) p1 ->
-  ubi_endblock false t2 s1 = Ok (s2, p2) -> In (id, x2) p2 ->
+  ubi_endblock false big t1 s = Ok (s1, p1) -> In (id, x1) p1 ->
+  ubi_endblock false big t2 s1 = Ok (s2, p2) -> In (id, x2) p2 ->
   exists r, In (id, r) (us_recs s) /\
             (0 <= t1 -> 0 <= u_period r -> t1 + u_period r < two64 -> t1 + u_period r < t2).
 Proof. exact ubi_once_per_period_guarded. Qed.
 Print Assumptions C18_ubi_once_per_period_guarded.
 
-(* ... and at full strength on the repaired gate `now >= last && now-last > period` (gate_exact = true) *)
-Theorem C18_ubi_once_per_period_repaired : forall t1 t2 s s1 s2 p1 p2 id x1 x2,
+(* HEADLINE for the tree as it is (probe gate_exact = true, commit 05a7d1b): at full strength on the
+   gate `now > last && now-last > period` -- no wrap-around guard *)
+Theorem C18_ubi_once_per_period_repaired : forall big t1 t2 s s1 s2 p1 p2 id x1 x2,
   NoDup (map fst (us_recs s)) ->
-  ubi_endblock true t1 s = Ok (s1, p1) -> In (id, x1) p1 ->
-  ubi_endblock true t2 s1 = Ok (s2, p2) -> In (id, x2) p2 ->
+  ubi_endblock true big t1 s = Ok (s1, p1) -> In (id, x1) p1 ->
+  ubi_endblock true big t2 s1 = Ok (s2, p2) -> In (id, x2) p2 ->
   exists r, In (id, r) (us_recs s) /\ (0 <= u_period r -> t1 + u_period r < t2).
 Proof. exact ubi_once_per_period_repaired. Qed.
 Print Assumptions C18_ubi_once_per_period_repaired.
@@ -164,8 +166,8 @@ Print Assumptions C18_send_donation_le_book.
 
 (* ---------------------------------------------------------------- round 2 *)
 (* over every history a (pool, account) claim record exists only if that account registered *)
-Theorem C18_claim_records_only_by_register : forall dynguard actors U h s k,
-  pget k (s_claims (sp_run dynguard actors U s h)) <> None ->
+Theorem C18_claim_records_only_by_register : forall dynguard payout_safe quorum_checked actors U h s k,
+  pget k (s_claims (sp_run dynguard payout_safe quorum_checked actors U s h)) <> None ->
   pget k (s_claims s) <> None \/ exists now a p, In (now, ORegister a p) h /\ k = (p, a).
 Proof. exact claim_records_only_by_register. Qed.
 Print Assumptions C18_claim_records_only_by_register.
@@ -193,7 +195,8 @@ Theorem C18_bonds_are_sum_of_contributions : forall ratomic actors U h sg,
 Proof. exact bonds_are_sum_of_contributions. Qed.
 Print Assumptions C18_bonds_are_sum_of_contributions.
 
-(* with the error returned by Apply (repaired variant) a removal is all or nothing *)
+(* HEADLINE for the tree as it is (probe remove_atomic = true, commit ef42471): with the error returned
+   by Apply a removal is all or nothing *)
 Theorem C18_removal_all_or_nothing : forall U c s s', co_remove true U c s = Ok s' -> cs_colls s' = zdel c (cs_colls s).
 Proof. exact removal_all_or_nothing. Qed.
 Print Assumptions C18_removal_all_or_nothing.
@@ -208,7 +211,7 @@ Example C18_nonvacuous_claim :
     (s_bank s' 7 1 =? 50) && on_some (zget 0 (s_pools s')) (fun P => p_bal P 1 =? 950)) = true.
 Proof. vm_compute. reflexivity. Qed.
 Example C18_nonvacuous_ubi :
-  on_ok (ubi_endblock false 1000 (mkUS [(1, mkU 0 0 900 2 60 1 false)] [(1, 5)] 0)) (fun r => us_minted (fst r) =? 2000000) = true.
+  on_ok (ubi_endblock true true 1000 (mkUS [(1, mkU 0 0 900 2 60 1 false)] [(1, 5)] 0)) (fun r => us_minted (fst r) =? 2000000) = true.
 Proof. vm_compute. reflexivity. Qed.
 Example C18_nonvacuous_withdraw :
   on_ok (co_withdraw [0] 100 1 0 s_exact) (fun s' => cs_bank s' 1 0 - cs_bank s_exact 1 0 =? 4) = true.
